@@ -310,6 +310,22 @@ func (g *gen) genTarget() *vdev {
 	if r.Chance(6) {
 		b.add("tunnel-group DefaultL2LGroup ipsec-attributes", "peer-id-validate nocheck")
 	}
+	// references to built-in objects that the file does not define (coverage item 13)
+	hasDefRule := false
+	for _, x := range b.Blocks {
+		if w := x.words(); len(w) == 3 && w[0] == "tunnel-group-map" {
+			hasDefRule = true
+		}
+	}
+	if !hasDefRule && r.Chance(10) {
+		b.add("tunnel-group-map default-group " + Pick(r, []string{"DefaultRAGroup", "DefaultWEBVPNGroup", "DefaultL2LGroup"}))
+	}
+	if r.Chance(8) {
+		b.add("tunnel-group DefaultRAGroup general-attributes", "default-group-policy DfltGrpPolicy")
+	}
+	if r.Chance(6) {
+		b.add("tunnel-group DefaultWEBVPNGroup webvpn-attributes", "authentication certificate")
+	}
 	return b
 }
 
@@ -568,6 +584,38 @@ func (g *gen) genDevice(b *vdev) (*vdev, []string) {
 				}
 				say("aaa-server-group-with-several-hosts")
 			}
+		}
+	}
+	// the device's tunnel-group uses an aaa-server of another name (a copy with the same attribute map); the target's one exists too
+	for _, o := range a.kindObjects("aaa") {
+		if !r.Chance(30) {
+			continue
+		}
+		n := o.name + "_B"
+		if a.exists(ref{"aaa", n}) {
+			continue
+		}
+		var cp []*block
+		for _, x := range a.blocksOf(o) {
+			w := x.words()
+			w[1] = n
+			if contains(w, "host") {
+				w[len(w)-1] = "10.2.9.1"
+			}
+			cp = append(cp, &block{Head: strings.Join(w, " "), Subs: append([]string{}, x.Subs...)})
+		}
+		used := false
+		for _, x := range a.Blocks {
+			for j, sx := range x.Subs {
+				if sx == "authentication-server-group "+o.name {
+					x.Subs[j] = "authentication-server-group " + n
+					used = true
+				}
+			}
+		}
+		if used {
+			a.Blocks = append(a.Blocks, cp...)
+			say("tunnel-group-uses-other-aaa-server")
 		}
 	}
 	nmut := r.Intn(7)
@@ -1076,6 +1124,15 @@ func (g *gen) genDevice(b *vdev) (*vdev, []string) {
 				}
 			}
 		}
+	}
+	// built-in objects partly defined on the device only (they are anchors with fixed names: compared, never renamed or cleared)
+	if r.Chance(8) && a.findHead("tunnel-group DefaultRAGroup ipsec-attributes") == nil {
+		a.add("tunnel-group DefaultRAGroup ipsec-attributes", "trust-point TP9")
+		say("default-tunnel-group-section-on-device-only")
+	}
+	if r.Chance(8) && a.findHead("group-policy DfltGrpPolicy attributes") == nil {
+		a.add("group-policy DfltGrpPolicy attributes", "vpn-idle-timeout 30")
+		say("default-group-policy-attributes-on-device-only")
 	}
 	// ---- content outside Netspoc's scope
 	if r.Chance(25) {
